@@ -7,6 +7,7 @@ import (
 	"bytes"
 	"encoding/binary"
 	"fmt"
+	"strings"
 
 	"github.com/free5gc/ike/eap"
 	"github.com/free5gc/ike/message"
@@ -38,7 +39,7 @@ func propC03(c *Ctx) {
 	n := c.n(3000, 150000)
 	for i := 0; i < n; i++ {
 		var sx *Sx
-		if c.replay != nil {
+		if c.replay != nil && strings.HasPrefix(c.replay.Input, "enc msg ") {
 			var err error
 			if sx, err = ParseSx(c.replay.Input[len("enc msg "):]); err != nil {
 				panic(err)
